@@ -56,7 +56,7 @@ RuleInit(cfg) ==
    since |-> [s \in St |-> 0], online |-> {},
    pub |-> [s \in St |-> NoView], pre |-> [s \in St |-> NoView],
    grant |-> [s \in St |-> NoGrant],
-   offers |-> [s \in St |-> [f \in St |-> 0]],
+   offered |-> [s \in St |-> {}], rogue |-> FALSE,
    pas |-> NoPass,
    visit |-> [s \in St |-> NoVisit],
    recvPrev |-> [s \in St |-> -1], recvCur |-> [s \in St |-> -1],
@@ -82,7 +82,7 @@ Agree(rs, s) ==
   /\ v.in_ring /\ ToSet(v.las) = on
   /\ (Cardinality(on) > 1 => (v.ns = Succ(on, s) /\ v.ps = Pred(on, s)))
 AllAgree(rs) == rs.online # {} /\ \A s \in rs.online : Agree(rs, s)
-ConvActive(rs) == IF FaultMode(rs.cfg) THEN rs.faultsEnd # -1 ELSE TRUE
+ConvActive(rs) == IF rs.cfg.mode = "single" THEN FALSE ELSE IF FaultMode(rs.cfg) THEN rs.faultsEnd # -1 ELSE TRUE
 (* recovered / converged: all views agree and the last 2N tokens went round in address order *)
 TryReach(rs, t) ==
   IF ~rs.reached /\ ConvActive(rs) /\ AllAgree(rs) /\ rs.goodTokens >= 2 * Cardinality(rs.online)
@@ -94,10 +94,10 @@ Deadline(rs) == IF FaultMode(rs.cfg) THEN Max2(rs.faultsEnd, rs.lastPop) + rs.cf
 Class(rs, e) ==
   LET b == e.b last == rs.last gap == e.t0 - last.t1 s == e.st IN
   IF last.by # -1 /\ ExpectsReply(last.b) /\ Da(last.b) = s /\ IsResp(b) /\ last.by # s THEN "Reply"
-  ELSE IF rs.holder = s THEN "Holder"
-  ELSE IF last.by = s /\ Kind(last.b) = "token" /\ Kind(b) = "token" /\ gap >= rs.cfg.tsl - rs.cfg.us THEN "PassSupervision"
   ELSE IF Kind(b) = "token" /\ Da(b) = s /\ Sa(b) = s
           /\ e.t0 - Max2(last.t1, rs.since[s]) >= Tto(rs.cfg, s) - rs.cfg.us THEN "Claim"
+  ELSE IF rs.holder = s THEN "Holder"
+  ELSE IF last.by = s /\ Kind(last.b) = "token" /\ Kind(b) = "token" /\ gap >= rs.cfg.tsl - rs.cfg.us THEN "PassSupervision"
   ELSE "None"
 
 (* new token visit of station s beginning at time t *)
@@ -130,7 +130,9 @@ OnTx(rs, e) ==
   LET s == e.st  b == e.b  k == Kind(b)  cfg == rs.cfg  St == rs.St
       last == rs.last  gap == e.t0 - last.t1
       cls == Class(rs, e)
-      judged == ~rs.disturbed              \* fault-free premise (C01 C11 C12 C13 C15)
+      single == cfg.mode = "single"         \* one station against a scripted, possibly non-conforming peer
+      judged == ~rs.disturbed               \* fault-free premise (C01 C11 C12 C13 C15)
+      jring == judged /\ ~single            \* clauses that presuppose conforming partners
       (* ---- C01 *)
       c01 == <<
         <<"C01.overlap", last.by = -1 \/ e.t0 >= last.t1>>,
@@ -139,8 +141,12 @@ OnTx(rs, e) ==
         <<"C01.tid", (cls # "Reply" /\ last.by # -1) => gap >= cfg.tid - cfg.us>> >>
       (* ---- C11.accept: first Holder-class transmission after a grant *)
       g == rs.grant[s]
-      accepting == cls = "Holder" /\ g.pending
-      c11a == << <<"C11.accept", accepting => (g.inring /\ (g.from = g.ps \/ g.offers >= 2))>> >>
+      \* taking the token shows in an initiating telegram (token, request); answering an earlier
+      \* request is not an acceptance
+      accepting == cls = "Holder" /\ g.pending /\ ~rs.rogue /\ ~IsResp(b)
+      \* the predecessor registered when the offer was made or when it was taken (the view may
+      \* change inside the accepting poll through telegrams handled before the token)
+      c11a == << <<"C11.accept", accepting => (g.inring /\ (g.from = g.ps \/ g.from = rs.pub[s].ps \/ g.offers >= 2))>> >>
       (* ---- token specifics *)
       d == IF k = "token" THEN Da(b) ELSE -1
       passOn == k = "token" /\ d # s
@@ -149,9 +155,9 @@ OnTx(rs, e) ==
       gd == IF d \in St THEN rs.grant[d] ELSE NoGrant
       c11t == <<
         <<"C11.max3", retry => rs.pas.n + 1 <= 3>>,
-        <<"C11.immediate", (retry /\ d \in St /\ d \in rs.online) => ~(gd.from = gd.ps /\ gd.inring /\ gd.from = s)>>,
+        <<"C11.immediate", (retry /\ ~single /\ d \in St /\ d \in rs.online) => ~(gd.from = gd.ps /\ gd.inring /\ gd.from = s)>>,
         <<"C11.drop", (moveOn /\ rs.pas.by = s) => rs.pas.to \notin ToSet(rs.pub[s].las)>>,
-        <<"C12.successor", (passOn /\ rs.expectSucc[s] # -1) => rs.expectSucc[s] = d>>,
+        <<"C12.successor", (passOn /\ ~single /\ rs.expectSucc[s] # -1) => rs.expectSucc[s] = d>>,
         <<"C02.order", (passOn /\ rs.reached /\ ~FaultMode(cfg) /\ s \in rs.online) => d = Succ(rs.online, s)>>,
         <<"C06.order", (passOn /\ rs.reached /\ FaultMode(cfg) /\ s \in rs.online) => d = Succ(rs.online, s)>> >>
       (* ---- status request of the holder: GAP poll unless an application sent it in this poll *)
@@ -160,11 +166,11 @@ OnTx(rs, e) ==
       v == rs.visit[s]
       c12g == <<
         <<"C12.range", gappoll => InGap(s, rs.pre[s].ns, cfg.hsa, Da(b))>>,
-        <<"C12.one", (gappoll /\ v.open) => (v.gappolls + 1 <= 1 \/ v.claim)>> >>
+        <<"C12.one", (gappoll /\ ~single /\ v.open) => (v.gappolls + 1 <= 1 \/ v.claim)>> >>
       (* ---- application request *)
       appreq == IsReq(b) /\ cls = "Holder" /\ rs.appsent[s]
       c13 == <<
-        <<"C13.hold", (appreq /\ v.open /\ v.appreqs >= 1 /\ rs.recvPrev[s] # -1)
+        <<"C13.hold", (appreq /\ ~single /\ v.open /\ v.appreqs >= 1 /\ rs.recvPrev[s] # -1)
                         => e.t0 < rs.recvPrev[s] + cfg.ttr + Period(cfg, s) + cfg.us>> >>
       (* ---- reply to a status request *)
       sresp == cls = "Reply" /\ k = "data" /\ IsStatusReq(last.b)
@@ -174,13 +180,12 @@ OnTx(rs, e) ==
         <<"C12.reply.state", sresp => /\ (stt = 3) = p.in_ring
                                        /\ (stt = 2 => (p.ready /\ Sa(last.b) = p.ps))
                                        /\ ((~p.ready /\ ~p.in_ring) => stt = 1)>>,
-        <<"C12.reply.when", sresp => gap <= cfg.tsl>> >>
+        <<"C12.reply.when", (sresp /\ ~single) => gap <= cfg.tsl>> >>
       (* ---- C06.single after recovery: transmissions need a permission class again *)
       c06 == << <<"C06.single", (FaultMode(cfg) /\ rs.reached /\ rs.tokensSinceReached > 2 * Cardinality(rs.online)) => cls # "None">> >>
-      judgedClauses == c01 \o c11a \o c11t \o c12g \o c13 \o c12r
-      allc == (IF judged THEN judgedClauses ELSE <<>>) \o c06
+      allc == (IF jring THEN c01 ELSE <<>>) \o (IF judged THEN c11a \o c11t \o c12g \o c13 \o c12r ELSE <<>>) \o c06
       clause == FirstBad(allc)
-      hits == (IF judged THEN <<"C01." \o cls>> ELSE <<>>)
+      hits == (IF jring THEN <<"C01." \o cls>> ELSE <<>>)
               \o (IF judged /\ accepting THEN <<"C11.accept">> ELSE <<>>)
               \o (IF judged /\ retry THEN <<"C11.max3">> ELSE <<>>)
               \o (IF judged /\ moveOn THEN <<"C11.drop">> ELSE <<>>)
@@ -193,7 +198,7 @@ OnTx(rs, e) ==
       rs1 == [rs EXCEPT !.last = [by |-> s, t0 |-> e.t0, t1 |-> e.t1, b |-> b, app |-> rs.appsent[s]]]
       \* heard watch: any transmission by someone else within tsl after a pass
       rs2 == IF rs.hw.by # -1 /\ rs.hw.by # s /\ gap < cfg.tsl /\ ~rs.hw.heard THEN [rs1 EXCEPT !.hw.heard = TRUE] ELSE rs1
-      rs3 == IF accepting THEN [rs2 EXCEPT !.grant[s].pending = FALSE, !.offers[s] = [f \in St |-> 0]] ELSE rs2
+      rs3 == IF cls = "Holder" /\ g.pending /\ ~IsResp(b) THEN [rs2 EXCEPT !.grant[s].pending = FALSE, !.offered[s] = {}] ELSE rs2
       rs4 == IF cls = "Claim" THEN [NewVisit(rs3, s, TRUE, FALSE, e.t1) EXCEPT !.grant[s] = NoGrant] ELSE rs3
       rs5 == IF k # "token" THEN rs4
              ELSE LET w == RotWitness(rs4, Sa(b), d, e.t0)
@@ -203,11 +208,11 @@ OnTx(rs, e) ==
                            ELSE LET keep == v.open /\ v.claim /\ v.gappolls = 0 /\ ~v.tok2 IN
                                 [NewVisit(cnt, s, keep, keep, e.t1) EXCEPT !.holder = s])
                      ELSE LET pas1 == IF retry THEN [rs.pas EXCEPT !.n = @ + 1] ELSE [by |-> s, to |-> d, n |-> 1]
-                              a == [cnt EXCEPT !.pas = pas1, !.expectSucc[s] = -1, !.hw = [by |-> s, to |-> d, heard |-> FALSE],
+                              a == [cnt EXCEPT !.rogue = FALSE, !.pas = pas1, !.expectSucc[s] = -1, !.hw = [by |-> s, to |-> d, heard |-> FALSE],
                                                !.holder = d, !.visit[s].open = FALSE]
                           IN IF d \in St
-                             THEN LET off == rs.offers[d][s] + 1 IN
-                                  NewVisit([a EXCEPT !.offers[d][s] = off,
+                             THEN LET off == IF s \in rs.offered[d] THEN 2 ELSE 1 IN
+                                  NewVisit([a EXCEPT !.offered[d] = @ \cup {s},
                                                      !.grant[d] = [from |-> s, ps |-> rs.pub[d].ps, inring |-> rs.pub[d].in_ring,
                                                                    offers |-> off, pending |-> TRUE]], d, FALSE, FALSE, e.t1)
                              ELSE a
@@ -223,6 +228,33 @@ OnTx(rs, e) ==
       reachHit == IF ~rs.reached /\ rs9.reached THEN <<ConvProp(rs) \o ".converge">> ELSE <<>>
   IN R(clause, [cls |-> cls, kind |-> k, st |-> s], rs9, hits \o reachHit)
 
+(* ------------------------------------------------------------------ transmissions of environment actors *)
+(* scripted peers, reference slaves: they update what is on the wire but are not judged *)
+OnEnvTx(rs, e) ==
+  LET b == e.b  k == Kind(b)  St == rs.St  last == rs.last
+      gap == e.t0 - last.t1
+      isReply == last.by # -1 /\ ExpectsReply(last.b) /\ IsResp(b)
+      \* a peer that transmits while a station under test holds the token (and is not answering
+      \* it) leaves the protocol: holder tracking from the wire is unreliable until that station
+      \* passes the token on
+      rogue == rs.rogue \/ (rs.holder \in St /\ ~isReply)
+      rs1 == [rs EXCEPT !.last = [by |-> e.st, t0 |-> e.t0, t1 |-> e.t1, b |-> b, app |-> FALSE], !.rogue = rogue,
+                        !.goodTokens = 0,
+                        !.hw = IF @.by # -1 /\ gap < rs.cfg.tsl /\ ~@.heard THEN [@ EXCEPT !.heard = TRUE] ELSE @]
+      rs2 == IF k # "token" THEN rs1
+             ELSE LET d == Da(b) sa == Sa(b)
+                      w == RotWitness(rs1, sa, d, e.t0)
+                  IN IF d \in St
+                     THEN LET off == IF sa \in rs.offered[d] THEN 2 ELSE 1 IN
+                          NewVisit([w EXCEPT !.holder = d, !.lastTokDa = d, !.offered[d] = @ \cup {sa},
+                                             !.grant[d] = [from |-> sa, ps |-> rs.pub[d].ps, inring |-> rs.pub[d].in_ring,
+                                                           offers |-> off, pending |-> TRUE]], d, FALSE, FALSE, e.t1)
+                     ELSE [w EXCEPT !.holder = d, !.lastTokDa = d]
+      sresp == k = "data" /\ ~IsReq(b) /\ last.by \in St /\ IsStatusReq(last.b) /\ ~last.app
+      rs3 == IF sresp /\ RespState(b) \in {2, 3} /\ RespStatus(b) = 0 /\ Da(b) = last.by /\ Sa(b) = Da(last.b)
+             THEN [rs2 EXCEPT !.expectSucc[last.by] = Sa(b)] ELSE rs2
+  IN R("ok", NoSig, rs3, <<>>)
+
 (* ------------------------------------------------------------------ Poll *)
 OnPoll(rs, e) ==
   LET s == e.st cfg == rs.cfg
@@ -232,7 +264,7 @@ OnPoll(rs, e) ==
       becomesReady == ~e.pre.ready /\ e.post.ready
       r == rs.rot[s]
       claimable == e.t - Max2(rs.last.t1, rs.since[s]) >= Tto(cfg, s) - cfg.us
-      readyOk == becomesReady => (r.claimed \/ (r.n >= 2 /\ r.prev = r.prev2) \/ claimable)
+      readyOk == becomesReady => (r.claimed \/ (r.n >= 2 /\ r.prev \subseteq (r.prev2 \cup {s})) \/ claimable)
       cadOk == CadenceOk(rs, s)
       rs1 == [rs EXCEPT !.pub[s] = e.post, !.pre[s] = e.pre, !.appsent[s] = FALSE,
                         !.hw = IF hwme THEN NoWatch ELSE @]
@@ -241,9 +273,11 @@ OnPoll(rs, e) ==
       stable == (wasReached /\ s \in rs.online) => Agree(rs1, s)
       rs2 == TryReach(rs1, e.t)
       late == ConvActive(rs) /\ ~rs2.reached /\ e.t > Deadline(rs)
-      cs == (IF judged THEN << <<"C11.heard", heardOk>>, <<"C12.ready", readyOk>>, <<"C12.cadence", cadOk>> >> ELSE <<>>)
+      single == cfg.mode = "single"
+      cs == (IF judged /\ ~single THEN << <<"C11.heard", heardOk>>, <<"C12.cadence", cadOk>> >> ELSE <<>>)
+            \o (IF judged THEN << <<"C12.ready", readyOk>> >> ELSE <<>>)
             \o << <<ConvProp(rs) \o ".stable", stable>>, <<ConvProp(rs) \o ".converge", ~late>> >>
-      hits == (IF judged /\ hwme THEN <<"C11.heard">> ELSE <<>>)
+      hits == (IF judged /\ ~single /\ hwme THEN <<"C11.heard">> ELSE <<>>)
               \o (IF judged /\ becomesReady THEN <<"C12.ready">> ELSE <<>>)
               \o (IF wasReached /\ s \in rs.online THEN <<ConvProp(rs) \o ".stable">> ELSE <<>>)
               \o (IF ~wasReached /\ rs2.reached THEN <<ConvProp(rs) \o ".converge">> ELSE <<>>)
@@ -257,7 +291,7 @@ OnCb(rs, e) ==
       judged == ~rs.disturbed
   IN IF e.k = "transmit" THEN
        LET cs == <<
-             <<"C15.holder", rs.holder = s /\ rs.outstanding[s] = -1>>,
+             <<"C15.holder", (rs.cfg.mode # "single" => rs.holder = s) /\ rs.outstanding[s] = -1>>,
              <<"C15.rr", rs.rrNext[s] # -1 => rs.rrNext[s] = a>>,
              <<"C15.done", a \notin rs.declined[s]>> >>
            rs1 == IF e.sent
@@ -278,7 +312,7 @@ OnOnline(rs, e) ==
     [rs EXCEPT !.online = @ \cup {s}, !.since[s] = e.t, !.lastPop = e.t, !.reached = FALSE, !.goodTokens = 0,
                !.pub[s] = NoView, !.pre[s] = NoView, !.rot[s] = NoRot, !.grant[s] = NoGrant,
                !.visit[s] = NoVisit, !.recvPrev[s] = -1, !.recvCur[s] = -1, !.outstanding[s] = -1,
-               !.rrNext[s] = -1, !.cadNs[s] = -1], <<>>)
+               !.rrNext[s] = -1, !.cadNs[s] = -1, !.offered[s] = {}, !.rogue = FALSE], <<>>)
 OnOffline(rs, e) ==
   R("ok", NoSig, [rs EXCEPT !.online = @ \ {e.st}, !.lastPop = e.t, !.reached = FALSE, !.disturbed = TRUE, !.goodTokens = 0,
                             !.holder = IF @ = e.st THEN -1 ELSE @], <<>>)
@@ -291,7 +325,7 @@ OnEnd(rs, e) ==
   IN R(FirstBad(cs), [reached |-> rs.reached], rs, <<ConvProp(rs) \o ".end">>)
 
 RuleStep(rs, e) ==
-  CASE e.ev = "Tx"        -> OnTx(rs, e)
+  CASE e.ev = "Tx"        -> IF "env" \in DOMAIN e THEN OnEnvTx(rs, e) ELSE OnTx(rs, e)
     [] e.ev = "Poll"      -> OnPoll(rs, e)
     [] e.ev = "Cb"        -> OnCb(rs, e)
     [] e.ev = "Online"    -> OnOnline(rs, e)
